@@ -541,6 +541,22 @@ def contains(it, container, item):
         if not d.items and not d.extra_unknown:
             return False  # nothing is in an empty dictionary, whatever the key
         return None
+    if isinstance(container, VIter) and getattr(container, "one_shot", False) and container.items is not None:
+        # `x in iterator` walks the iterator up to and including the first match (all of it when there is none): what a later
+        # test or loop finds is only the rest
+        if getattr(container, "consumed", False):
+            it.exhausted.append((it.site(None) if not it.frames else "%s" % (it.stack[-1] if it.stack else "?"), "membership test on an exhausted iterator", tuple(it.stack)))
+            return False
+        vals = [const_of(x) for x in container.items]
+        if ok and all(o for o, _ in vals):
+            seq = [v for _, v in vals]
+            if k in seq:
+                del container.items[: seq.index(k) + 1]
+                return True
+            del container.items[:]
+            container.consumed = True
+            return False
+        return None
     if isinstance(container, (VList, VTuple, VIter)):
         items = it.concrete_items(container)
         if items is None:
